@@ -47,13 +47,13 @@ structure FInv (exts : Array Ext) (mx : List Nat) (nbF f : Nat) (s : GSt) : Prop
   bound : ∀ g, f ≤ g → g < nbF → s.minIdx.getD g 0 ≤ exts.size
   cur : s.currFrame ≤ f
 
-theorem remQ_mem {exts : Array Ext} {mx idx : List Nat} {g : Nat} {nbF : Nat} (hv : AllValid exts nbF) {e : Ext}
-    (he : e ∈ remQ exts mx idx g) : ValidExt nbF e ∧ e.frame.toNat = g := by
+theorem remQ_mem {exts : Array Ext} {mx idx : List Nat} {g : Nat} {nbF : Nat} (hv : AllIF exts nbF) (hD : ExtsOk exts) {e : Ext}
+    (he : e ∈ remQ exts mx idx g) : IFExt nbF e ∧ DataOk e ∧ e.frame.toNat = g := by
   unfold remQ seg at he
   rw [List.mem_filter] at he
   obtain ⟨j, hj⟩ := List.mem_iff_getElem?.mp (List.mem_of_mem_take he.1)
   rw [List.getElem?_drop] at hj
-  exact ⟨hv _ e (by simpa using hj), by simpa using he.2⟩
+  exact ⟨hv _ e (by simpa using hj), hD _ e (by simpa using hj), by simpa using he.2⟩
 
 theorem remsFrom_getElem {exts : Array Ext} {mx idx : List Nat} {nbF g0 i : Nat} {r : List Ext}
     (h : (remsFrom exts mx idx nbF g0)[i]? = some r) : r = remQ exts mx idx (g0 + i) ∧ g0 + i < nbF := by
@@ -75,13 +75,18 @@ theorem remsFrom_getElem {exts : Array Ext} {mx idx : List Nat} {nbF g0 i : Nat}
 section
 variable {exts : Array Ext} {nbF : Nat} {mx : List Nat}
 
-theorem wFramesLoop_spec (hv : AllValid exts nbF) (hnf : nbF ≤ 48) (hmxl : mx.length = nbF)
+/-- The frame loop of `opus_packet_extensions_generate()`, both outcomes: with admissible lengths everywhere it emits
+    the specified bytes; with an inadmissible length somewhere in what is still to be written it returns `OPUS_BAD_ARG`. -/
+theorem wFramesLoop_gen (hv : AllIF exts nbF) (hD : ExtsOk exts) (hnf : nbF ≤ 48) (hmxl : mx.length = nbF)
     (hmx : ∀ g, g < nbF → mx.getD g 0 ≤ exts.size)
     (hlastp : ∀ g, g < nbF → mx.getD g 0 = 0 ∨ ∃ e, exts[mx.getD g 0 - 1]? = some e ∧ e.frame.toNat = g)
     (f : Nat) (s : GSt) :
     FInv exts mx nbF f s → s.written + total (remsFrom exts mx s.minIdx nbF f) = exts.size →
-    ∃ sF, (wFramesLoop exts nbF mx f s).res = .ok sF ∧ sF.written = exts.size ∧
-      content false (wFramesLoop exts nbF mx f s).ops = serAll exts.size (remsFrom exts mx s.minIdx nbF f) s.currFrame s.written := by
+    ((∀ g, f ≤ g → g < nbF → ∀ x ∈ remQ exts mx s.minIdx g, LenOk x) →
+      ∃ sF, (wFramesLoop exts nbF mx f s).res = .ok sF ∧ sF.written = exts.size ∧
+        content false (wFramesLoop exts nbF mx f s).ops = serAll exts.size (remsFrom exts mx s.minIdx nbF f) s.currFrame s.written) ∧
+    ((∃ g, f ≤ g ∧ g < nbF ∧ ∃ x ∈ remQ exts mx s.minIdx g, ¬ LenOk x) →
+      (wFramesLoop exts nbF mx f s).res = .err .badArg) := by
   fun_induction wFramesLoop exts nbF mx f s with
   | case1 f s hlt ih =>
     intro hI hcount
@@ -94,7 +99,9 @@ theorem wFramesLoop_spec (hv : AllValid exts nbF) (hnf : nbF ≤ 48) (hmxl : mx.
         (fun g h1 h2 => by unfold remQ; rw [hI.eq g (by omega) h2]; rfl)
       simpa using this
     have hlen_later : (remsFrom exts mx s.minIdx nbF (f + 1)).length = nbF - (f + 1) := remsFrom_length _ _ _ _ _
-    have hav : ∀ e ∈ remQ exts mx s.minIdx f, ValidExt nbF e ∧ e.frame.toNat = f := fun e he => remQ_mem hv he
+    have hfr : ∀ e ∈ remQ exts mx s.minIdx f, e.frame.toNat = f := fun e he => (remQ_mem hv hD he).2.2
+    have hvalid : (∀ x ∈ remQ exts mx s.minIdx f, LenOk x) → ∀ e ∈ remQ exts mx s.minIdx f, ValidExt nbF e := fun hL e he =>
+      validExt_of (remQ_mem hv hD he).1 (hL e he) (remQ_mem hv hD he).2.1
     -- the repeat detection
     have hdet : ∃ det, (if f + 1 < nbF then detectLoop exts mx nbF f (s.minIdx.getD f 0) (mx.getD f 0)
           { rep := s.repIdx, repeatCount := 0, lastLong := none } else Res.ok { rep := s.repIdx, repeatCount := 0, lastLong := none }) = .ok det ∧
@@ -131,24 +138,42 @@ theorem wFramesLoop_spec (hv : AllValid exts nbF) (hnf : nbF ≤ 48) (hmxl : mx.
       obtain ⟨hz1, hz2⟩ := hspec.zero rfl
       simp only at hz1 hz2
       have hst : ({ written := s.written, currFrame := s.currFrame, minIdx := s.minIdx, repIdx := det.rep } : GSt) = s := by rw [hz1]
-      rw [hst, wFrameLoop_plain hv f det _ _ s (hmx f hlt) (fun i' _ _ h => by omega)]
-      rw [W.bind_of_ok _ rfl]
-      simp only
+      rw [hst]
       have hrq : seg exts (s.minIdx.getD f 0) (mx.getD f 0) f = remQ exts mx s.minIdx f := rfl
-      simp only [hrq]
       have hI' : FInv exts mx nbF (f + 1) { s with written := s.written + (remQ exts mx s.minIdx f).length, currFrame := lastFrame s.currFrame (remQ exts mx s.minIdx f) } := by
         refine ⟨hI.lmin, hI.lrep, fun g h1 h2 => hI.eq g (by omega) h2, fun g h1 h2 => hI.clean g (by omega) h2,
           fun g h1 h2 => hI.bound g (by omega) h2, ?_⟩
         simp only
-        rw [lastFrame_same _ _ (fun e he => (hav e he).2)]
+        rw [lastFrame_same _ _ hfr]
         have := hI.cur
         split <;> omega
-      obtain ⟨sF, h1, h2, h3⟩ := ih _ hI' (by simp only; omega)
-      refine ⟨sF, h1, h2, ?_⟩
-      rw [content_append, h3, serOps_contentW hnf exts.size _ _ _ (fun e he => (hav e he).1)
-        (frameSorted_const hI.cur (fun e he => (hav e he).2)).1]
-      simp only [List.take_zero, List.drop_zero, serW, List.nil_append, Nat.lt_irrefl, if_false, false_and, repBlock_zero,
-        curAfter, lastFrame, Nat.add_zero, Nat.zero_mul, map_drop_zero, List.append_nil]
+      have hih := ih _ hI' (by simp only; omega)
+      constructor
+      · intro hL
+        rw [wFrameLoop_plain hv f det _ _ s (hmx f hlt) (hL f (Nat.le_refl _) hlt) (fun i' _ _ h => by omega)]
+        rw [W.bind_of_ok _ rfl]
+        simp only
+        simp only [hrq]
+        obtain ⟨sF, h1, h2, h3⟩ := hih.1 (fun g h1 h2 => hL g (by omega) h2)
+        refine ⟨sF, h1, h2, ?_⟩
+        rw [content_append, h3, serOps_contentW hnf exts.size _ _ _ (hvalid (hL f (Nat.le_refl _) hlt))
+          (frameSorted_const hI.cur hfr).1]
+        simp only [List.take_zero, List.drop_zero, serW, List.nil_append, Nat.lt_irrefl, if_false, false_and, repBlock_zero,
+          curAfter, lastFrame, Nat.add_zero, Nat.zero_mul, map_drop_zero, List.append_nil]
+      · rintro ⟨g, hg1, hg2, x, hx, hxb⟩
+        by_cases hc : ∀ x ∈ seg exts (s.minIdx.getD f 0) (mx.getD f 0) f, LenOk x
+        · rw [wFrameLoop_plain hv f det _ _ s (hmx f hlt) hc (fun i' _ _ h => by omega)]
+          rw [W.bind_of_ok _ rfl]
+          simp only
+          simp only [hrq]
+          apply hih.2
+          by_cases hgf : g = f
+          · subst hgf; exact absurd (hc x hx) hxb
+          · exact ⟨g, by omega, hg2, x, hx, hxb⟩
+        · have hb : ∃ x ∈ seg exts (s.minIdx.getD f 0) (mx.getD f 0) f, ¬ LenOk x := by
+            apply Classical.byContradiction; intro hn; apply hc
+            intro x hx; apply Decidable.byContradiction; intro hxx; exact hn ⟨x, hx, hxx⟩
+          exact W.bind_of_err _ (wFrameLoop_plain_bad hv f det _ _ s (hmx f hlt) hb (fun i' _ _ h => by omega))
     · -- a repeat block
       have hRpos : 0 < R := by omega
       obtain ⟨hlne, hRc⟩ := blockR_pos (hRdef ▸ hRpos)
@@ -215,18 +240,22 @@ theorem wFramesLoop_spec (hv : AllValid exts nbF) (hnf : nbF ≤ 48) (hmxl : mx.
       simp only at hup
       have hremq_rep : ∀ g, f + 1 ≤ g → g < nbF → remQ exts mx s.repIdx g = remQ exts mx s.minIdx g := by
         intro g h1 h2; unfold remQ; rw [hI.eq g (by omega) h2]
-      obtain ⟨sF, r1, r2, r3, r4, r5, r6, r7, r8⟩ := wFrameLoop_rep hv hnf mx f hf1 det (by omega) iR (mx.getD f 0) p2 (hmx f hlt)
+      have hsegall : ∀ g, f + 1 ≤ g → g < nbF → s.minIdx.getD g 0 ≤ det.rep.getD g 0 ∧ det.rep.getD g 0 ≤ exts.size ∧
+          seg exts (s.minIdx.getD g 0) (det.rep.getD g 0) g = (remQ exts mx s.minIdx g).take det.repeatCount := by
+        intro g h1 h2
+        obtain ⟨u1, u2, u3, u4, u5⟩ := hup g (by omega) h2
+        have hb := hI.bound g (by omega) h2
+        have hm := hmx g h2
+        rw [hI.eq g (by omega) h2] at u2 u3 u5
+        rw [hremq_rep g h1 h2] at u5
+        rw [hcnt]
+        exact ⟨u2, by omega, u5⟩
+      have hstep := fun (hL1 : ∀ x ∈ seg exts (s.minIdx.getD f 0) (mx.getD f 0) f, LenOk x)
+          (hL2 : ∀ g', f + 1 ≤ g' → g' < nbF → ∀ x ∈ seg exts (s.minIdx.getD g' 0) (det.rep.getD g' 0) g', LenOk x) =>
+        wFrameLoop_rep hv hD hnf mx f hf1 det (by omega) iR (mx.getD f 0) p2 (hmx f hlt)
         eR heR hfR (s.written + R) (lastLongPos ((remQ exts mx s.minIdx f).take R)) det.rep hspec.len hiRdef last hlastV hpost0
-        (s.minIdx.getD f 0) { s with repIdx := det.rep } p1 rfl hI.lmin (by simp only; omega) hI.cur
-        (fun g h1 h2 => by
-          obtain ⟨u1, u2, u3, u4, u5⟩ := hup g (by omega) h2
-          have hb := hI.bound g (by omega) h2
-          have hm := hmx g h2
-          rw [hI.eq g (by omega) h2] at u2 u3 u5
-          rw [hremq_rep g h1 h2] at u5
-          simp only
-          rw [hcnt]
-          exact ⟨u2, by omega, u5⟩)
+        (s.minIdx.getD f 0) { s with repIdx := det.rep } p1 rfl hI.lmin (by simp only; omega) hI.cur hL1 hL2
+        hsegall
         (fun g j' e h1 h2 he hfe hcon => by
           cases hlp : lastLongPos ((remQ exts mx s.minIdx f).take R) with
           | none => rw [hlp] at hll; simp only at hll; rw [hll] at hcon; cases hcon.2
@@ -262,45 +291,114 @@ theorem wFramesLoop_spec (hv : AllValid exts nbF) (hnf : nbF ≤ 48) (hmxl : mx.
                 congr 1
                 exact seg_pos_inj j3 h2 heL he hfL hfe (by omega)
               · simp only [hl, if_false] at h; cases h)
-      simp only at r4 r5 r6 r8
-      rw [hcnt] at r6 r8
-      rw [htake] at r6 r8
-      -- the next frame
-      have hremsF : remsFrom exts mx sF.minIdx nbF (f + 1) = (remsFrom exts mx s.minIdx nbF (f + 1)).map (List.drop R) :=
-        remsFrom_congr (List.drop R) (fun g h1 h2 => by
+      -- the state after the frame
+      have hnext : ∀ sF : GSt, sF.repIdx = det.rep → sF.minIdx.length = nbF →
+          (∀ g', f + 1 ≤ g' → g' < nbF → sF.minIdx.getD g' 0 = det.rep.getD g' 0) →
+          sF.written = s.written + R + R * (remsFrom exts mx s.minIdx nbF (f + 1)).length +
+            (seg exts (iR + 1) (mx.getD f 0) f).length →
+          sF.currFrame = lastFrame (if last then f + 1 else f) (seg exts (iR + 1) (mx.getD f 0) f) →
+          (∀ g, f + 1 ≤ g → g < nbF → remQ exts mx sF.minIdx g = (remQ exts mx s.minIdx g).drop R) ∧
+          remsFrom exts mx sF.minIdx nbF (f + 1) = (remsFrom exts mx s.minIdx nbF (f + 1)).map (List.drop R) ∧
+          FInv exts mx nbF (f + 1) sF ∧
+          sF.written + total (remsFrom exts mx sF.minIdx nbF (f + 1)) = exts.size := by
+        intro sF r2 r3 r5 r6 r7
+        have hq : ∀ g, f + 1 ≤ g → g < nbF → remQ exts mx sF.minIdx g = (remQ exts mx s.minIdx g).drop R := by
+          intro g h1 h2
           obtain ⟨u1, u2, u3, u4, u5⟩ := hup g (by omega) h2
           unfold remQ at u4 ⊢
-          rw [r5 g h1 h2, u4, hI.eq g (by omega) h2])
-      have hI' : FInv exts mx nbF (f + 1) sF := by
-        refine ⟨r3, by rw [r2]; exact hspec.len, fun g h1 h2 => by rw [r2, r5 g h1 h2],
-          fun g h1 h2 => by rw [r5 g h1 h2]; exact (hup g (by omega) h2).1,
-          fun g h1 h2 => by
-            rw [r5 g h1 h2]
-            obtain ⟨u1, u2, u3, u4, u5⟩ := hup g (by omega) h2
-            have hb := hI.bound g (by omega) h2
-            have hm := hmx g h2
-            rw [hI.eq g (by omega) h2] at u3; omega, ?_⟩
-        rw [r7]
-        have hpv : ∀ e ∈ seg exts (iR + 1) (mx.getD f 0) f, e.frame.toNat = f := by
-          intro e he; rw [← hpostq] at he; exact (hav e (List.mem_of_mem_drop he)).2
-        rw [lastFrame_same _ _ hpv]
-        (repeat' split) <;> omega
-      obtain ⟨sG, g1, g2, g3⟩ := ih sF hI' (by rw [hremsF, r6, ← hpostq, hpostlen]; omega)
-      rw [W.bind_of_ok _ r1]
-      refine ⟨sG, g1, g2, ?_⟩
-      rw [content_append, r8, g3, hremsF, r6, r7]
-      have hcur1 : lastFrame s.currFrame ((remQ exts mx s.minIdx f).take R) = f := by
-        rw [lastFrame_same _ _ (fun e he => (hav e (List.mem_of_mem_take he)).2)]
-        have : (remQ exts mx s.minIdx f).take R ≠ [] := by
-          intro h; have := congrArg List.length h; rw [hpre, hprelen] at this; simp at this; omega
-        simp [this]
-      simp only [hRpos, if_true, true_and, hpostq, curAfter, hlaterlen, List.append_assoc]
-      rw [← hpre, hcur1]
+          rw [r5 g h1 h2, u4, hI.eq g (by omega) h2]
+        have hremsF : remsFrom exts mx sF.minIdx nbF (f + 1) = (remsFrom exts mx s.minIdx nbF (f + 1)).map (List.drop R) :=
+          remsFrom_congr (List.drop R) hq
+        have hI' : FInv exts mx nbF (f + 1) sF := by
+          refine ⟨r3, by rw [r2]; exact hspec.len, fun g h1 h2 => by rw [r2, r5 g h1 h2],
+            fun g h1 h2 => by rw [r5 g h1 h2]; exact (hup g (by omega) h2).1,
+            fun g h1 h2 => by
+              rw [r5 g h1 h2]
+              obtain ⟨u1, u2, u3, u4, u5⟩ := hup g (by omega) h2
+              have hb := hI.bound g (by omega) h2
+              have hm := hmx g h2
+              rw [hI.eq g (by omega) h2] at u3; omega, ?_⟩
+          rw [r7]
+          have hpv : ∀ e ∈ seg exts (iR + 1) (mx.getD f 0) f, e.frame.toNat = f := by
+            intro e he; rw [← hpostq] at he; exact hfr e (List.mem_of_mem_drop he)
+          rw [lastFrame_same _ _ hpv]
+          (repeat' split) <;> omega
+        exact ⟨hq, hremsF, hI', by rw [hremsF, r6, ← hpostq, hpostlen]; omega⟩
+      constructor
+      · intro hL
+        obtain ⟨sF, r1, r2, r3, r4, r5, r6, r7, r8⟩ := hstep (hL f (Nat.le_refl _) hlt)
+          (fun g' h1 h2 x hx => hL g' (by omega) h2 x (by
+            rw [(hsegall g' h1 h2).2.2] at hx; exact List.mem_of_mem_take hx))
+        simp only at r4 r5 r6 r8
+        rw [hcnt] at r6 r8
+        rw [htake] at r6 r8
+        obtain ⟨hq, hremsF, hI', hcount'⟩ := hnext sF r2 r3 r5 r6 r7
+        obtain ⟨sG, g1, g2, g3⟩ := (ih sF hI' hcount').1 (fun g h1 h2 x hx => hL g (by omega) h2 x (by
+          rw [hq g h1 h2] at hx; exact List.mem_of_mem_drop hx))
+        rw [W.bind_of_ok _ r1]
+        refine ⟨sG, g1, g2, ?_⟩
+        rw [content_append, r8, g3, hremsF, r6, r7]
+        have hcur1 : lastFrame s.currFrame ((remQ exts mx s.minIdx f).take R) = f := by
+          rw [lastFrame_same _ _ (fun e he => hfr e (List.mem_of_mem_take he))]
+          have : (remQ exts mx s.minIdx f).take R ≠ [] := by
+            intro h; have := congrArg List.length h; rw [hpre, hprelen] at this; simp at this; omega
+          simp [this]
+        simp only [hRpos, if_true, true_and, hpostq, curAfter, hlaterlen, List.append_assoc]
+        rw [← hpre, hcur1]
+      · rintro ⟨g, hg1, hg2, x, hx, hxb⟩
+        by_cases hc : (∀ x ∈ seg exts (s.minIdx.getD f 0) (mx.getD f 0) f, LenOk x) ∧
+            (∀ g', f + 1 ≤ g' → g' < nbF → ∀ x ∈ seg exts (s.minIdx.getD g' 0) (det.rep.getD g' 0) g', LenOk x)
+        · obtain ⟨sF, r1, r2, r3, r4, r5, r6, r7, r8⟩ := hstep hc.1 hc.2
+          simp only at r4 r5 r6 r8
+          rw [hcnt] at r6 r8
+          rw [htake] at r6 r8
+          obtain ⟨hq, hremsF, hI', hcount'⟩ := hnext sF r2 r3 r5 r6 r7
+          rw [W.bind_of_ok _ r1]
+          apply (ih sF hI' hcount').2
+          by_cases hgf : g = f
+          · subst hgf; exact absurd (hc.1 x hx) hxb
+          · refine ⟨g, by omega, hg2, x, ?_, hxb⟩
+            rw [hq g (by omega) hg2]
+            rw [← List.take_append_drop R (remQ exts mx s.minIdx g)] at hx
+            rcases List.mem_append.mp hx with h | h
+            · exfalso; apply hxb; apply hc.2 g (by omega) hg2
+              rw [(hsegall g (by omega) hg2).2.2, hcnt]; exact h
+            · exact h
+        · have hb : (∃ x ∈ seg exts (s.minIdx.getD f 0) (mx.getD f 0) f, ¬ LenOk x) ∨
+              (∃ g', f + 1 ≤ g' ∧ g' < nbF ∧ ∃ x ∈ seg exts (s.minIdx.getD g' 0) (det.rep.getD g' 0) g', ¬ LenOk x) := by
+            apply Classical.byContradiction; intro hn; apply hc; constructor
+            · intro x hx; apply Decidable.byContradiction; intro hxx; exact hn (Or.inl ⟨x, hx, hxx⟩)
+            · intro g' h1 h2 x hx; apply Decidable.byContradiction; intro hxx; exact hn (Or.inr ⟨g', h1, h2, x, hx, hxx⟩)
+          exact W.bind_of_err _ (wFrameLoop_rep_bad hv f det (by omega) iR (mx.getD f 0) p2 (hmx f hlt) eR heR hfR
+            det.rep hspec.len (by omega) hiRdef (s.minIdx.getD f 0) { s with repIdx := det.rep } p1 rfl hI.lmin
+            (fun g' h1 h2 => (hsegall g' h1 h2).2.1) hb)
   | case2 f s hge =>
     intro hI hcount
-    rw [remsFrom_end exts mx s.minIdx (by omega)] at hcount ⊢
-    refine ⟨s, rfl, by simpa [total] using hcount, ?_⟩
-    rw [serAll]; rfl
+    constructor
+    · intro _
+      rw [remsFrom_end exts mx s.minIdx (by omega)] at hcount ⊢
+      refine ⟨s, rfl, by simpa [total] using hcount, ?_⟩
+      rw [serAll]; rfl
+    · rintro ⟨g, hg1, hg2, _⟩; omega
+
+/-- With admissible lengths everywhere, the frame loop emits exactly `serAll` of the per-frame queues. -/
+theorem wFramesLoop_spec (hv : AllIF exts nbF) (hD : ExtsOk exts) (hnf : nbF ≤ 48) (hmxl : mx.length = nbF)
+    (hmx : ∀ g, g < nbF → mx.getD g 0 ≤ exts.size)
+    (hlastp : ∀ g, g < nbF → mx.getD g 0 = 0 ∨ ∃ e, exts[mx.getD g 0 - 1]? = some e ∧ e.frame.toNat = g)
+    (f : Nat) (s : GSt) (hI : FInv exts mx nbF f s) (hc : s.written + total (remsFrom exts mx s.minIdx nbF f) = exts.size)
+    (hL : ∀ g, f ≤ g → g < nbF → ∀ x ∈ remQ exts mx s.minIdx g, LenOk x) :
+    ∃ sF, (wFramesLoop exts nbF mx f s).res = .ok sF ∧ sF.written = exts.size ∧
+      content false (wFramesLoop exts nbF mx f s).ops = serAll exts.size (remsFrom exts mx s.minIdx nbF f) s.currFrame s.written :=
+  (wFramesLoop_gen hv hD hnf hmxl hmx hlastp f s hI hc).1 hL
+
+/-- An inadmissible length among the extensions still to be written makes the frame loop return `OPUS_BAD_ARG`. -/
+theorem wFramesLoop_bad (hv : AllIF exts nbF) (hD : ExtsOk exts) (hnf : nbF ≤ 48) (hmxl : mx.length = nbF)
+    (hmx : ∀ g, g < nbF → mx.getD g 0 ≤ exts.size)
+    (hlastp : ∀ g, g < nbF → mx.getD g 0 = 0 ∨ ∃ e, exts[mx.getD g 0 - 1]? = some e ∧ e.frame.toNat = g)
+    (f : Nat) (s : GSt) (hI : FInv exts mx nbF f s) (hc : s.written + total (remsFrom exts mx s.minIdx nbF f) = exts.size)
+    (hB : ∃ g, f ≤ g ∧ g < nbF ∧ ∃ x ∈ remQ exts mx s.minIdx g, ¬ LenOk x) :
+    (wFramesLoop exts nbF mx f s).res = .err .badArg :=
+  (wFramesLoop_gen hv hD hnf hmxl hmx hlastp f s hI hc).2 hB
 
 end
 end Opus.ExtProofs
